@@ -216,6 +216,33 @@ def run(ctx):
                         ctx.ob('R19.2', '%s: nested %s::%s keeps its name' % (short, t.j['adt'].split('::')[-1], lab), made == [lab], ctx.where(b, t.line), 'maps to %s' % made,
                                construct='from-nested:%s:%s' % (b.name, lab))
     ctx.floor('R19.2', 'From impls between deadpool-redis and redis description types', n_from, 10)
+    # the other way a description reaches the redis crate: IntoConnectionInfo impls on deadpool-redis types (by value or by reference)
+    n_into = 0
+    for b in c.bodies:
+        if b.j.get('impl_trait') != 'redis::IntoConnectionInfo' or not b.path.endswith('::into_connection_info'):
+            continue
+        if 'deadpool_redis::' not in b.j.get('impl_self', ''):
+            continue
+        n_into += 1
+        ctx.saw(b)
+        an = prog.an(b)
+        short = 'IntoConnectionInfo for %s' % b.j.get('impl_self', '').replace('deadpool_redis::config::', '')
+        for blk in b.blocks:
+            if blk.cleanup:
+                continue
+            for s in blk.stmts:
+                if s.kind == 'assign' and s.rv.kind == 'agg' and s.rv.j.get('ak') == 'adt' and s.rv.j['adt'].startswith('redis::') and s.rv.j.get('fields'):
+                    for fname, op in zip(s.rv.j['fields'], s.rv.ops):
+                        if fname in EXCL:
+                            continue
+                        src = sources(an, op, deep=True)
+                        got = {x[1].split('.')[-1] for x in src if x[0] == 'field'}
+                        nested = any(x[0] == 'agg' and x[1].startswith('redis::') for x in src)      # a nested description built here is checked on its own
+                        ok = (fname in got or nested) and any(x[0] == 'arg' for x in src) and not any(x[0] == 'call' and x[1].endswith('Default>::default') for x in src)
+                        ctx.ob('R19.2', '%s: %s.%s comes from the same-named field of the description' % (short, s.rv.j['adt'].split('::')[-1], fname), ok, ctx.where(b, s.line),
+                               'from %s%s' % (sorted(got), ' and Default::default()' if any(x[0] == 'call' and x[1].endswith('Default>::default') for x in src) else ''),
+                               construct='into-field:%s:%s.%s' % (b.name, s.rv.j['adt'].split('::')[-1], fname))
+    ctx.floor('R19.2', 'IntoConnectionInfo impls on deadpool-redis description types', n_into, 1)
 
     # ---- R19.3 serde ------------------------------------------------------------------------------------------------------
     core = prog.crates.get('deadpool')
@@ -239,6 +266,36 @@ def run(ctx):
             fields = [f['name'] for f in core.adt('deadpool::managed::config::PoolConfig')['variants'][0]['fields']]
             ctx.ob('R19.3', 'PoolConfig: only max_size is required; omitted timeouts / queue_mode take their defaults', missing == ['max_size'] and defaults == ['QueueMode', 'Timeouts'] and sorted(fields) == ['max_size', 'queue_mode', 'timeouts'],
                    ctx.where(b), 'required %s, defaulted %s, fields %s' % (missing, defaults, fields), construct='serde-default:PoolConfig', sites=missing + defaults)
+        # the writing side of the round trip: every field is written on every path of the derived Serialize impl
+        # (a `skip_serializing_if` is only harmless when it skips exactly the value the reader defaults to: Option::is_none on that field)
+        for ty in ('deadpool::managed::config::PoolConfig', 'deadpool::managed::config::Timeouts'):
+            sb = [b_ for p_, b_ in prog.bodies.items() if p_.endswith('Serialize for %s>::serialize' % ty)]
+            flds = [f['name'] for f in core.adt(ty)['variants'][0]['fields']]
+            if len(sb) != 1:
+                ctx.undecide('R19.3', 'derived Serialize impl of %s not found (%d)' % (ty, len(sb))); continue
+            b_ = sb[0]
+            ctx.saw(b_)
+            san = prog.an(b_)
+            writes = {}
+            for blk in b_.blocks:
+                if blk.term.kind == 'call' and not blk.cleanup and any(n.endswith('SerializeStruct::serialize_field') for n in blk.term.callee_names()):
+                    writes.setdefault(san.resolve_operand(blk.term.args[1]).strip('"'), []).append(blk)
+            ok_exits = [bb for bb, cls, det in san.ret_assignments() if cls != 'err' and cls != 'residual']
+            ends = [blk.idx for blk in b_.blocks if blk.term.kind == 'call' and not blk.cleanup and any(n.endswith('SerializeStruct::end') for n in blk.term.callee_names())]
+            for f_ in flds:
+                ws = writes.get(f_, [])
+                okw = bool(ws) and bool(ends)
+                why = 'field never written' if not ws else ''
+                if okw:
+                    esc = san.reach([0], ('normal',), avoid=[w.idx for w in ws])
+                    if any(e in esc for e in ends):
+                        # conditional: acceptable only if the governing test is Option::is_none of this very field
+                        tests = [blk for blk in b_.blocks if blk.term.kind == 'switch' and blk.term.j.get('dty') == 'bool' and ws[0].idx in san.reach_after(blk.idx, ('normal',)) and any(san.dominates(blk.idx, w.idx) for w in ws)]
+                        harmless = bool(tests) and all(any(s_[0] == 'call' and s_[1] == 'std::option::Option::is_none' for s_ in sources(san, blk.term.discr)) and
+                                                       any(s_[0] == 'field' and s_[1] == '%s.%s' % (ty, f_) for s_ in sources(san, blk.term.discr, deep=True)) for blk in tests)
+                        okw = harmless
+                        why = 'the field is skipped on some path (skip_serializing_if): a value that is not the default can be lost in a round trip'
+                ctx.ob('R19.3', '%s.%s is written on every path of Serialize' % (ty.split('::')[-1], f_), okw, ctx.where(b_), why if not okw else '', construct='serde-write:%s.%s' % (ty.split('::')[-1], f_))
         td = prog.bodies.get('<deadpool::managed::config::Timeouts as std::default::Default>::default')
         tn = prog.body('deadpool::managed::config::Timeouts::new')
         okt = False
